@@ -463,6 +463,23 @@ fn replay(beh: &Value, line: usize, conc: &Conc, rep: &mut Report, structure_onl
         if let Some(p) = unit_problem {
             ctx.bad(idx, "unit of output", json!(null), json!(p));
         }
+        // (C05) between updates get() does not depend on what the input does meanwhile: the input is made to fail with an error the
+        // history never uses, get() is read again, and the input is put back
+        if structure_only && !is_set && !is_fol && kind != "CmdPIDF" {
+            let mut pert = ev.clone();
+            if pert.get("in").is_some() {
+                pert["in"] = json!({"c": "err", "e": 9});
+            } else {
+                pert = json!({"c": "err", "e": 9, "t": 0});
+            }
+            (main.feed)(&pert, t, conc);
+            let later = catch(|| (main.get)()).map(|x| x.0).unwrap_or(Obs::Panic("panic".into()));
+            (main.feed)(ev, t, conc);
+            if !same_obs(&later, &obs) {
+                ctx.bad(idx, "get() changed although no update happened (the input was changed in between)", obs.to_json(), later.to_json());
+                return;
+            }
+        }
         // compare with the prediction
         let exp = &st["out"];
         let ok = match (s(exp, "c"), &obs) {
